@@ -4,7 +4,7 @@ const char *prop_id = "C02";
 
 enum { E_NAIVE, E_GAUSS, E_M4RI, E_PLUQ, E_HYB, E_HYBT, E_N };
 static const char *ename[] = {"mzd_echelonize_naive", "mzd_gauss_delayed", "mzd_echelonize_m4ri", "mzd_echelonize_pluq", "mzd_echelonize", "_mzd_echelonize_m4ri(heuristic)"};
-static const double THR[] = {0.0, 0.05, 0.25, 0.5, 1.0, 2.0};
+static const double THR[] = {0.0, 0.05, 0.25, 0.5, 1.0, 2.0, 0.1, 0.2};
 
 typedef struct { pm *A, *R; int rank; uint64_t dig; } ctx;
 
@@ -57,12 +57,13 @@ static void on_spec(const rk_spec *s, void *u) {
   else if (vx_tier) { for (int i = 0; i <= 10; i++) ks[nk++] = i; }
   else { for (int i = 0; i < 3; i++) ks[nk++] = KQ[i]; }
   for (int e = 0; e < E_N; e++) for (int full = 0; full < 2; full++) {
-    int np = (e == E_M4RI) ? nk : (e == E_HYBT) ? 6 : 1;
+    int hyb = (s->fam == F_HYB);
+    int np = (e == E_M4RI) ? nk : (e == E_HYBT) ? (hyb ? 24 : 6) : 1;
     if (e == E_GAUSS && tiny && !vx_tier) continue; /* identical code path to naive */
-    if (e == E_HYBT && !vx_tier) np = 3;
+    if (e == E_HYBT && !vx_tier && !hyb) np = 3;
     for (int pi = 0; pi < np; pi++) {
-      int k = (e == E_M4RI) ? ks[pi] : (e == E_HYBT ? (pi % 2 ? 3 : 0) : 0);
-      int thr = (e == E_HYBT) ? (!vx_tier ? pi * 2 : pi) : 0;
+      int k = (e == E_M4RI) ? ks[pi] : (e == E_HYBT ? (hyb ? (pi % 3 == 0 ? 0 : pi % 3 == 1 ? 3 : 6) : (pi % 2 ? 3 : 0)) : 0);
+      int thr = (e == E_HYBT) ? (hyb ? pi / 3 : (!vx_tier ? pi * 2 : pi)) : 0; /* HYB inputs: every threshold x k in {0,3,6}: the block size decides at which column the density is sampled */
       if (!vx_case_begin("%s|full=%d|k=%d|thr=%g|%s", ename[e], full, k, e == E_HYBT ? THR[thr] : -1.0, desc)) continue;
       if (!ready) { x.A = rk_build(s); x.R = pm_rref(x.A); x.rank = pm_rank(x.A); x.dig = pm_hash(x.A); ready = 1; }
       check_one(e, full, k, thr, &x, desc);
@@ -88,7 +89,7 @@ void prop_enumerate(void) {
   const char *mode = vx_arg("mode", "tiny");
   if (!strcmp(mode, "tiny")) rk_enumerate(1 << F_TINY, vx_tier ? 18 : 14, 0, on_spec, NULL);
   else if (!strcmp(mode, "lift")) rk_enumerate(1 << F_LIFT, 0, vx_tier ? 12 : 8, on_spec, NULL);
-  else if (!strcmp(mode, "struct")) rk_enumerate((1 << F_ECH) | (1 << F_RK) | (1 << F_BND), 0, 0, on_spec, NULL);
+  else if (!strcmp(mode, "struct")) rk_enumerate((1 << F_ECH) | (1 << F_RK) | (1 << F_BND) | (1 << F_HYB), 0, 0, on_spec, NULL);
   else if (!strcmp(mode, "big")) big();
   (void)g_fam;
 }
